@@ -244,7 +244,10 @@ class EngineBase:
         return z3.Select(z3.Select(st.DV, r), k)
 
     def dict_len(self, st, r):
-        return z3.Select(st.DL, r)
+        ln = z3.Select(st.DL, r)
+        if not z3.is_int_value(smt.simp(ln)):
+            st.assume(ln >= 0)      # a length is never negative (instance fact: havocked lengths are otherwise arbitrary integers)
+        return ln
 
     def dict_set(self, st: St, r, k, v):
         had = self.dict_has(st, r, k)
